@@ -489,6 +489,24 @@ func DrawScenario(t *rapid.T, cfg ProgCfg, p Profile) Scenario {
 	for i := 0; i < nb; i++ {
 		sc.Token.Blocks = append(sc.Token.Blocks, s.DrawBlock(t, closure, cfg))
 	}
+	if cfg.MaxBlocks >= 2 && rapid.IntRange(0, 9).Draw(t, "crossblock") == 0 {
+		// cross-block bait: one block carries only a rule (deriving nothing from what it can see),
+		// a later block carries the fact that rule would fire on and a check on the derived fact
+		// (or the other way round); optionally a check-only block in between. Scoping says the
+		// check fails.
+		ruleBlock := m.Block{Rules: []m.Rule{{Head: m.P("xb_out", m.Var("b")), Body: []m.Pred{m.P("xb_src", m.Var("b"))}}}}
+		factBlock := m.Block{Facts: []m.Pred{m.P("xb_src", m.Int(1))},
+			Checks: []m.Check{{Queries: []m.Rule{{Head: QueryHead, Body: []m.Pred{m.P("xb_out", m.Int(1))}}}}}}
+		var mid []m.Block
+		if rapid.Bool().Draw(t, "crossblock.mid") {
+			mid = []m.Block{{Checks: []m.Check{{Queries: []m.Rule{{Head: QueryHead, Body: []m.Pred{m.P("xb_src", m.Var("c"))}}, {Head: QueryHead}}}}}}
+		}
+		if rapid.Bool().Draw(t, "crossblock.order") {
+			sc.Token.Blocks = append(append(append(sc.Token.Blocks, ruleBlock), mid...), factBlock)
+		} else {
+			sc.Token.Blocks = append(append(append(sc.Token.Blocks, factBlock), mid...), ruleBlock)
+		}
+	}
 	return sc
 }
 
